@@ -399,6 +399,44 @@ Definition phasor_time_model (a : operand) : res := as_quantity_model (generic D
 Definition hilbert_model (a : operand) : res :=
   as_quantity_model (Op (od a) (oq a) (def_units T (od a) (oq a)) (ov a)) (aq a).
 
+(* ---- unary operations -------------------------------------------------------------------
+   abs(), conjugate(), real, imag, sign, simplify(), expand(), subs(), limit(), copy()
+   and -x all rebuild self.__class__(<sympy value>, **assumptions): same class, and the
+   DEFAULT units of the class (the operand's own units are not carried over) *)
+Definition rebuild_model (a : operand) : res :=
+  construct (Some (od a, oq a)) (is_undef_dom a) None.
+(* differentiate() / integrate() with respect to the domain variable: rebuild, then
+   units /= (resp. *=) the variable's units *)
+(* the units of the variable object (symbols.py): the domain's units, except that the
+   phasor domain (domain_units = 1) uses omega, in rad/s like the phasor-ratio domain *)
+Definition var_units (d : domain) : uvec :=
+  match d with Dphasor => dom_units T Dphasor_ratio | _ => dom_units T d end.
+Definition diff_model (a : operand) : res :=
+  construct (Some (od a, oq a)) (is_undef_dom a) (Some (usub (def_units T (od a) (oq a)) (var_units (adom a)))).
+Definition integ_model (a : operand) : res :=
+  construct (Some (od a, oq a)) (is_undef_dom a) (Some (uadd (def_units T (od a) (oq a)) (var_units (adom a)))).
+(* convolve(): same domain required; class of self; units = product of the operand
+   units and of the variable's units *)
+Definition convolve_model (a b : operand) : res :=
+  if negb (same_dom a b) then RE ED
+  else construct (Some (od a, oq a)) (is_undef_dom a) (Some (uadd (uadd (ou a) (ou b)) (dom_units T (adom a)))).
+(* phase: a generic expression (of the phasor-ratio domain for a phasor, of the plain
+   constant domain for the constant domains) in rad *)
+Definition u_rad := UV 0 0 0 1.
+Definition phase_model (a : operand) : res :=
+  construct (Some (if cd F_is_phasor_domain a then Dphasor_ratio else if is_const a then Dconstant else adom a, Qundef))
+            (is_undef_dom a) (Some u_rad).
+(* magnitude of a REAL-valued expression: expr(abs(self.sympy)), a generic expression of
+   the domain that expr() infers from the symbols; or, when Expr.magnitude rebuilds its
+   own class (mag_real_keeps), the same class *)
+Definition magnitude_real_model (a : operand) : res :=
+  if mag_real_keeps T then rebuild_model a
+  else construct (Some (symbol_domain a, Qundef)) false None.
+(* x ** k for a number k other than 2 and -1: self.__class__(result), or the class of
+   the exponent (a constant-domain generic expression) when self is of a constant domain *)
+Definition pow_general_model (a : operand) : res :=
+  if is_const a then RK Dconstant Qundef (def_units T Dconstant Qundef) else rebuild_model a.
+
 (* ---- domain transforms between the time domain and the Laplace / Fourier / angular
         Fourier domains (TimeDomainExpression.LT / FT, LaplaceDomainExpression.ILT,
         FourierDomainExpression / AngularFourierDomainExpression.inverse_fourier) --------
